@@ -184,14 +184,21 @@ pub fn record(args: &[String]) {
                 json!({"k": "prefix_if", "value": to_cps(value), "prefix": to_cps(p), "out": res(&o)})
             }
             _ => {
-                let anchors = [(19782u64, 2024, 2, 29, 3, 60), (47541, 2100, 3, 1, 0, 60), (0, 1970, 1, 1, 3, 1), (10957, 2000, 1, 1, 5, 1), (365, 1971, 1, 1, 4, 1)];
-                let (day, y, m, d, wd, yd) = anchors[rng.gen_range(0..anchors.len())];
-                let sod: u64 = rng.gen_range(0..86400);
+                // any instant up to 9999-12-31: a handful of anchors, the range the calendar automaton walks,
+                // the far future, and the first timestamps with 11 digits (10^10 s = day 115740, second 64000)
+                let (day, sod): (u64, u64) = match rng.gen_range(0..8) {
+                    0 => ([19782u64, 47541, 0, 10957, 365][rng.gen_range(0..5)], rng.gen_range(0..86400)),
+                    1 | 2 => (rng.gen_range(0..=84005), rng.gen_range(0..86400)),
+                    3 | 4 => (rng.gen_range(84006..=2_932_896), rng.gen_range(0..86400)),
+                    5 => (115_740, [63_999u64, 64_000, 64_001][rng.gen_range(0..3)]),
+                    6 => (2_932_896, 86_399),
+                    _ => ([24_855u64, 49_710, 99_999, 115_739, 115_741, 1_157_407][rng.gen_range(0..6)], rng.gen_range(0..86400)),
+                };
                 let f = FORMATS[rng.gen_range(0..FORMATS.len())];
                 let mut z = base_object("main");
                 z.vars.bumped_timestamp = Some(day * 86400 + sod);
                 let o = eval(&z.to_string(), &format!("format_timestamp(value=bumped_timestamp, format=\"{f}\")"));
-                json!({"k": "format_timestamp", "inst": {"c": {"day": day, "y": y, "m": m, "d": d, "wd": wd, "yd": yd}, "sod": sod},
+                json!({"k": "format_timestamp", "inst": {"c": civil_json(day), "sod": sod},
                        "format": to_cps(f), "out": res(&o), "tz": std::env::var("TZ").unwrap_or_default()})
             }
         };
